@@ -1,10 +1,174 @@
 import PhysisModel.Base.Proto
+import PhysisModel.Model.CharDat
+import PhysisModel.Model.GearSets
+import PhysisModel.Spec.CharDatLayout
+import PhysisModel.Spec.GearSetLayout
+/-!
+C09 driver.  Case grammar (see `harness/src/c09.rs`):
+
+* `char <version> <appearance> <timestamp> <comment>` — `<appearance>` = the 27 appearance bytes as
+  hex in the documented order (race, gender, age, height, tribe, face, hair, highlights on/off, …,
+  voice); `<comment>` hex of the UTF-8 bytes.  `charbad` = the same with an undocumented race /
+  gender / tribe code (the file must be rejected).
+* `gear <current> <unk1> <unk3> <sets>` — `<sets>` = `.` | `;`-separated
+  `<pos>:<index>:<name>:<unk64>:<facewear|->:<slots>`, `<slots>` = `.` | `,`-separated
+  `<slot>/<id>/<glamour|->/<u1>/<u2>/<u3>/<u4>/<u5>`.
+
+The `<input>` column is `<op> <file>` with the file produced by the `Spec/` encoder.
+-/
 namespace Physis.Driver.C09
 open Physis Physis.Proto
+
+def u8? (s : String) : Option UInt8 := s.toNat?.bind fun n => if n < 256 then some n.toUInt8 else none
+def u16? (s : String) : Option UInt16 := s.toNat?.bind fun n => if n < 65536 then some n.toUInt16 else none
+def u32? (s : String) : Option UInt32 := s.toNat?.bind fun n => if n < 4294967296 then some n.toUInt32 else none
+def u64? (s : String) : Option UInt64 := s.toNat?.bind fun n => if n < 18446744073709551616 then some n.toUInt64 else none
+def opt32? (s : String) : Option (Option UInt32) := if s == "-" then some none else (u32? s).map some
+def showOpt (o : Option UInt32) : String := match o with | some v => toString v | none => "-"
+
+/-! ### character presets -/
+
+def appearanceOf : Bytes → Option Spec.CharDat.Appearance
+  | [race, gender, age, height, tribe, face, hair, hl, skinTone, rightEyeColor, hairTone, highlights,
+     facialFeatures, facialFeatureColor, eyebrows, leftEyeColor, eyes, nose, jaw, mouth,
+     lipsToneFurPattern, raceFeatureSize, raceFeatureType, bust, facePaint, facePaintColor, voice] =>
+    if hl > 1 then none else
+    some { race, gender, age, height, tribe, face, hair, enableHighlights := hl == 1, skinTone,
+           rightEyeColor, hairTone, highlights, facialFeatures, facialFeatureColor, eyebrows,
+           leftEyeColor, eyes, nose, jaw, mouth, lipsToneFurPattern, raceFeatureSize,
+           raceFeatureType, bust, facePaint, facePaintColor, voice }
+  | _ => none
+
+def appearanceBytes (a : Spec.CharDat.Appearance) : Bytes :=
+  [a.race, a.gender, a.age, a.height, a.tribe, a.face, a.hair, (if a.enableHighlights then 1 else 0),
+   a.skinTone, a.rightEyeColor, a.hairTone, a.highlights, a.facialFeatures, a.facialFeatureColor,
+   a.eyebrows, a.leftEyeColor, a.eyes, a.nose, a.jaw, a.mouth, a.lipsToneFurPattern,
+   a.raceFeatureSize, a.raceFeatureType, a.bust, a.facePaint, a.facePaintColor, a.voice]
+
+def showPreset (p : Spec.CharDat.Preset) : String :=
+  toString p.version.toNat ++ ";" ++ (appearanceBytes p.appearance).toHex ++ ";" ++
+    toString p.timestamp.toNat ++ ";" ++ p.comment.toHex
+
+def sameOr (file : Bytes) (w : Option Bytes) : String :=
+  match w with
+  | none => "panic"
+  | some w => if w == file then "same" else w.toHex
+
+def presetOf (v a t c : String) : Option Spec.CharDat.Preset := do
+  let v ← u32? v
+  let a ← appearanceOf (← Bytes.ofHex a)
+  let t ← u32? t
+  let c ← Bytes.ofHex c
+  pure ⟨v, a, t, c⟩
+
+def modelChar (file : Bytes) (p : Spec.CharDat.Preset) : String :=
+  match CharDat.parseChar file with
+  | none => "none"
+  | some d =>
+    "F[" ++ showPreset d ++ "]|W[" ++ sameOr file (CharDat.writeChar d) ++ "]|D[" ++ sameOr file (CharDat.writeChar p) ++ "]"
+
+/-! ### gear sets -/
+
+def parseSlot (s : String) : Option (Nat × Spec.GearSet.Slot) :=
+  match s.splitOn "/" with
+  | [j, id, gl, u1, u2, u3, u4, u5] => do
+    let j ← j.toNat?
+    if j ≥ 14 then none
+    pure (j, ⟨← u32? id, ← opt32? gl, ← u32? u1, ← u32? u2, ← u32? u3, ← u32? u4, ← u32? u5⟩)
+  | _ => none
+
+def place {α : Type} (n : Nat) (items : List (Nat × α)) : Option (List (Option α)) :=
+  items.foldlM (fun acc (i, x) =>
+    match acc[i]? with
+    | some none => some (acc.set i (some x))
+    | _ => none) (List.replicate n none)
+
+def parseSet (s : String) : Option (Nat × Spec.GearSet.GearSet) :=
+  match s.splitOn ":" with
+  | [pos, index, name, unk, fw, slots] => do
+    let pos ← pos.toNat?
+    let slots ← ((if slots == "." then [] else slots.splitOn ",").mapM parseSlot)
+    let slots ← place 14 slots
+    pure (pos, ⟨← u8? index, ← Bytes.ofHex name, ← u64? unk, slots, ← opt32? fw⟩)
+  | _ => none
+
+def tableOf (cur u1 u3 sets : String) : Option Spec.GearSet.Table := do
+  let sets ← ((if sets == "." then [] else sets.splitOn ";").mapM parseSet)
+  let sets ← place 100 sets
+  pure ⟨← u8? u1, ← u8? cur, ← u16? u3, sets⟩
+
+def zipIdx' {α : Type} (l : List α) : List (Nat × α) := (List.range l.length).zip l
+
+def showSlots (slots : List (Option (UInt32 × Option UInt32))) : String :=
+  let present := (zipIdx' slots).filterMap fun (j, s) => s.map fun (id, gl) =>
+    (Spec.GearSet.slotNames.getD j "?") ++ "/" ++ toString id.toNat ++ "/" ++ showOpt gl
+  if present.isEmpty then "." else ",".intercalate present
+
+def showSets (sets : List (Option (UInt8 × Bytes × Option UInt32 × List (Option (UInt32 × Option UInt32))))) : String :=
+  let present := (zipIdx' sets).filterMap fun (i, s) => s.map fun (index, name, fw, slots) =>
+    toString i ++ ":" ++ toString index.toNat ++ ":" ++ name.toHex ++ ":" ++ showOpt fw ++ ":" ++ showSlots slots
+  if present.isEmpty then "." else ";".intercalate present
+
+def showTable (t : Spec.GearSet.Table) : String :=
+  toString t.current.toNat ++ "|" ++ toString t.sets.length ++ "|" ++
+    showSets (t.sets.map (Option.map fun g => (g.index, g.name, g.facewear, g.slots.map (Option.map fun s => (s.id, s.glamour)))))
+
+def showGearSets (g : GearSets.GearSets) : String :=
+  toString g.currentGearset.toNat ++ "|" ++ toString g.gearsets.length ++ "|" ++
+    showSets (g.gearsets.map (Option.map fun g => (g.index, g.name, g.facewear, g.slots.map (Option.map fun s => (s.id, s.glamourId)))))
+
+/-- can the harness build this table through the public API (hidden per-set / per-slot fields zero)? -/
+def buildable (t : Spec.GearSet.Table) : Bool :=
+  t.sets.all fun s => match s with
+    | none => true
+    | some g => g.unk == 0 && g.slots.all fun x => match x with
+      | none => true
+      | some x => x.unk1 == 0 && x.unk2 == 0 && x.unk3 == 0 && x.unk4 == 0 && x.unk5 == 0
+
+/-- the value the harness builds: the parsed base object with `current_gearset` and `gearsets` replaced -/
+def modelBuilt (base : GearSets.GearSets) (t : Spec.GearSet.Table) : GearSets.GearSets :=
+  { base with currentGearset := t.current,
+              gearsets := t.sets.map (Option.map fun g =>
+                ({ index := g.index, name := g.name, facewear := g.facewear,
+                   slots := g.slots.map (Option.map fun s => ({ id := s.id, glamourId := s.glamour } : GearSets.GearSlot)) } : GearSets.GearSet)) }
+
+def modelGear (file : Bytes) (t : Spec.GearSet.Table) : String :=
+  match GearSets.parseGear file with
+  | .none => "none"
+  | .panic => "panic"
+  | .ok g =>
+    let w := GearSets.writeGear g
+    let d := if buildable t then (let wd := GearSets.writeGear (modelBuilt g t); if wd == file then "same" else "diff:" ++ toString wd.length) else "skip"
+    "F[" ++ showGearSets g ++ "]|W[" ++ (if w == file then "same" else "diff:" ++ toString w.length) ++ "]|D[" ++ d ++ "]"
 
 /-- one case line in, one answer line out (see `Base/Proto.lean`) -/
 def handle (line : String) : String :=
   match fields line with
+  | ["char", v, a, t, c] =>
+    match presetOf v a t c with
+    | some p =>
+      let file := Spec.CharDat.encode p
+      answer ("char " ++ file.toHex) ("F[" ++ showPreset p ++ "]|W[same]|D[same]") [] (some (modelChar file p))
+    | none => bad
+  | ["charbad", v, a, t, c] =>
+    match presetOf v a t c with
+    | some p =>
+      if p.appearance.race ∈ Spec.CharDat.raceCodes ∧ p.appearance.gender ∈ Spec.CharDat.genderCodes ∧
+          p.appearance.tribe ∈ Spec.CharDat.tribeCodes then bad else
+      let file := Spec.CharDat.encode p
+      answer ("charbad " ++ file.toHex) "none" []
+        (some (match CharDat.parseChar file with | none => "none" | some d => "F[" ++ showPreset d ++ "]"))
+    | none => bad
+  | ["gear", cur, u1, u3, sets] =>
+    match tableOf cur u1 u3 sets with
+    | some t =>
+      let file := Spec.GearSet.encode t
+      let tags := if Spec.GearSet.overlapsMarker t then ["kf:gearsets.id-overlaps-marker"] else []
+      let tags := if t.sets.all (·.isNone) then "triv" :: tags else tags
+      answer ("gear " ++ Bytes.toHex file)
+        ("F[" ++ showTable t ++ "]|W[same]|D[" ++ (if buildable t then "same" else "skip") ++ "]") tags
+        (some (modelGear file t))
+    | none => bad
   | _ => bad
 
 end Physis.Driver.C09
